@@ -327,7 +327,18 @@ def r5_identifier_provenance(repo):
                 elif copied:
                     ok, why = True, "copied from an existing declaration (%s)" % copied[0]
                 elif lam:
-                    ok, why = True, "lambda shadow name (lambda_<counter>)"
+                    # the counter is one monotone stream for the whole program: bound once, in __init__, to
+                    # iter(range(..)) / itertools.count(..) - a number computed from what a scope already holds repeats
+                    # as soon as two scopes hold equally many lambdas
+                    gcls = repo.cls(GEN)
+                    binds = [(m_.name, n_) for m_ in (gcls.methods.values() if gcls is not None else [])
+                             for n_ in iter_own_nodes(m_.node)
+                             if isinstance(n_, ast.Assign) and any(src(t_) == "self.int_stream" for t_ in n_.targets)]
+                    mono = len(binds) == 1 and binds[0][0] == "__init__" and \
+                        re.match(r"^(iter\(range\([\w, ]*\)\)|(itertools\.)?count\([\w, ]*\))$", src(binds[0][1].value)) is not None
+                    ok, why = mono, ("lambda shadow name (lambda_<counter>)" if mono else
+                                     "lambda shadow names are numbered by %s: not a single monotone stream bound in __init__, "
+                                     "so two lambdas can get the same name" % [src(b[1].value)[:50] for b in binds])
                 elif params:
                     ok, why = True, "name supplied by the caller through parameter `%s`" % params[0][1]
                 else:
